@@ -429,4 +429,181 @@ example :
      | .ok (m', out, fired) => (fired, m'.main.ents.map (·.k), (oldList m'.lo).map (·.k), out.cost.dropped)
      | .error _ => (false, [], [], [])) = (true, [1, 9], [3], [3, 4]) := by decide
 
+/-- keys that a `drain_filter` loop does not visit stay where they are -/
+theorem drainFilterLoop_frame {R : Nat} (hR : 0 < R) (p : Pred) (nMain : Nat) :
+    ∀ (ks : List Nat) (i : Nat) (m : Map) (empt : Nat) (take : Option Nat) (acc : List Entry) (cost : Cost)
+      (r : Map × List Entry × Cost × List Nat),
+      Inv R m → ks.Nodup → Placed nMain i ks m →
+      Map.drainFilterLoop p nMain ks i m empt take acc cost = .ok r →
+      ∀ (extra : List Nat) (j : Nat), (∀ k ∈ ks, k ∉ extra) → Placed nMain j extra m → Placed nMain j extra r.1 := by
+  intro ks
+  induction ks with
+  | nil =>
+    intro i m empt take acc cost r _ _ _ hr extra j _ hp
+    unfold Map.drainFilterLoop at hr
+    cases hr; exact hp
+  | cons k rest ih =>
+    intro i m empt take acc cost r h hnd ⟨hp1, hp2⟩ hr extra j hdis hpe
+    rw [List.nodup_cons] at hnd
+    unfold Map.drainFilterLoop at hr
+    by_cases ht0 : take = some 0
+    · simp only [ht0, if_true] at hr
+      cases hr; exact hpe
+    · simp only [ht0, if_false] at hr
+      obtain ⟨b1, b2, b3, b4, b5, b6, b7⟩ := bump_spec h p.add hp1
+      have hkx : k ∉ extra := hdis k List.mem_cons_self
+      have hdis' : ∀ k' ∈ rest, k' ∉ extra := fun k' hk' => hdis k' (List.mem_cons_of_mem _ hk')
+      have hplaced1 : Placed nMain (i + 1) rest (Map.bump m (Map.locOfIndex nMain i k) p.add) :=
+        Placed.of_keep k (fun k' _ hin => by rw [b2]; exact hin) (fun k' _ hin => by rw [b3]; exact hin)
+          rest (i + 1) hnd.1 hp2
+      have hpe1 : Placed nMain j extra (Map.bump m (Map.locOfIndex nMain i k) p.add) :=
+        Placed.of_keep k (fun k' _ hin => by rw [b2]; exact hin) (fun k' _ hin => by rw [b3]; exact hin)
+          extra j hkx hpe
+      cases htest : p.test k with
+      | false =>
+        simp only [htest, Bool.false_eq_true, if_false] at hr
+        exact ih (i + 1) _ empt take acc cost r b1 hnd.2 hplaced1 hr extra j hdis' hpe1
+      | true =>
+        simp only [htest, if_true] at hr
+        have hp1' : PlacedAt nMain i k (Map.bump m (Map.locOfIndex nMain i k) p.add) := by
+          unfold PlacedAt at hp1 ⊢
+          split
+          · rename_i hlt; simp only [hlt, if_true] at hp1; rw [b2]; exact hp1
+          · rename_i hlt; simp only [hlt, if_false] at hp1; rw [b3]; exact hp1
+        obtain ⟨e1, hf1⟩ := find_of_placed b1 hp1'
+        obtain ⟨m2, rc, he, hi2, _⟩ := removeAt_spec hR b1 hf1 (decide (0 < empt))
+        rw [he] at hr
+        dsimp only at hr
+        have htab := removeAt_tables he
+        have hlk : (Map.locOfIndex nMain i k).k = k := rfl
+        have hplaced2 : Placed nMain (i + 1) rest m2 :=
+          Placed.of_keep k (fun k' hk' hin => htab.1 k' (by rw [hlk]; exact hk') hin)
+            (fun k' hk' hin => htab.2 k' (by rw [hlk]; exact hk') hin) rest (i + 1) hnd.1 hplaced1
+        have hpe2 : Placed nMain j extra m2 :=
+          Placed.of_keep k (fun k' hk' hin => htab.1 k' (by rw [hlk]; exact hk') hin)
+            (fun k' hk' hin => htab.2 k' (by rw [hlk]; exact hk') hin) extra j hkx hpe1
+        exact ih (i + 1) m2 _ _ _ _ r hi2 hnd.2 hplaced2 hr extra j hdis' hpe2
+
+theorem placed_suffix {nMain : Nat} {m : Raw} : ∀ (pre suf : List Nat) (i : Nat),
+    Placed nMain i (pre ++ suf) m → Placed nMain (i + pre.length) suf m := by
+  intro pre
+  induction pre with
+  | nil => intro suf i h; simpa using h
+  | cons a rest ih =>
+    intro suf i h
+    have := ih suf (i + 1) h.2
+    simp only [List.length_cons]
+    rw [show i + (rest.length + 1) = i + 1 + rest.length by omega]
+    exact this
+
+/-- **`drain_filter` whose closure panics on entering its `fuse`-th call** (pulled until then; the
+    panic is caught).  The fuse fires iff the map has that many elements; the invariant holds; the
+    element the closure panicked on is exactly as it was; every other element was visited once:
+    the matching ones are gone, the others carry the closure's mutation.  Nothing is handed back
+    (what had been yielded is dropped by the unwinding). -/
+theorem drain_filter_call_closure_panic_safe {R : Nat} (hR : 0 < R) (m : Map) (p : Pred) (fuse : Nat) (o : Orc)
+    (h : Inv R m) :
+    OkOr (Map.drainFilterFusedOut m p fuse o) (fun r =>
+      Inv R r.1 ∧ (r.2.2 = true ↔ fuse < o.calls.length) ∧ r.2.1.returned = [] ∧
+      (∀ k, absOf r.1 k =
+        if o.calls[fuse]? = some k then absOf m k
+        else (if p.test k then none else (absOf m k).map (bumpE k p.add)))) := by
+  unfold Map.drainFilterFusedOut
+  cases hok : Map.iterOrderOk m o.calls with
+  | false => simp [OkOr]
+  | true =>
+    simp only [Bool.not_true, Bool.false_eq_true, if_false]
+    obtain ⟨hpl, hnd, hcov⟩ := placed_of_iterOrderOk m o.calls h hok
+    -- the list splits around the panicking call
+    have hsplit : o.calls = o.calls.take fuse ++ o.calls.drop fuse := (List.take_append_drop _ _).symm
+    have hndpre : (o.calls.take fuse).Nodup := List.Nodup.sublist (List.take_sublist _ _) hnd
+    have hndpost : (o.calls.drop (fuse + 1)).Nodup := List.Nodup.sublist (List.drop_sublist _ _) hnd
+    have hplpre : Placed m.main.ents.length 0 (o.calls.take fuse) m :=
+      placed_prefix (o.calls.take fuse) (o.calls.drop fuse) 0 (by rw [← hsplit]; exact hpl)
+    have hsplit1 : o.calls = o.calls.take (fuse + 1) ++ o.calls.drop (fuse + 1) := (List.take_append_drop _ _).symm
+    have hplpost0 : Placed m.main.ents.length (0 + (o.calls.take (fuse + 1)).length) (o.calls.drop (fuse + 1)) m :=
+      placed_suffix (o.calls.take (fuse + 1)) (o.calls.drop (fuse + 1)) 0 (by rw [← hsplit1]; exact hpl)
+    obtain ⟨m1, ys1, c1, ro1, pre1, hr1, hks1, hi1, ha1, _, _, hnone1, _, _⟩ :=
+      drainFilterLoop_spec hR p m.main.ents.length (o.calls.take fuse) 0 m o.empt none [] {} h hndpre hplpre
+    have hro1 : ro1 = [] := hnone1 rfl
+    rw [hro1, List.append_nil] at hks1
+    rw [hr1]
+    dsimp only
+    -- disjointness of the two parts
+    have hdisj : ∀ k ∈ o.calls.take fuse, k ∉ o.calls.drop (fuse + 1) := by
+      intro k hk1 hk2
+      have hnd' := hnd
+      rw [hsplit] at hnd'
+      have hk2' : k ∈ o.calls.drop fuse := (List.drop_sublist_drop_left o.calls (Nat.le_succ fuse)).subset hk2
+      exact (List.nodup_append.1 hnd').2.2 k hk1 k hk2' rfl
+    by_cases hlt : fuse < o.calls.length
+    · -- the fuse fires
+      have hlen1 : (o.calls.take (fuse + 1)).length = fuse + 1 := by rw [List.length_take]; omega
+      rw [hlen1, Nat.zero_add] at hplpost0
+      have hplpost : Placed m.main.ents.length (fuse + 1) (o.calls.drop (fuse + 1)) m1 :=
+        drainFilterLoop_frame hR p m.main.ents.length (o.calls.take fuse) 0 m o.empt none [] {} _ h hndpre hplpre hr1
+          (o.calls.drop (fuse + 1)) (fuse + 1) hdisj hplpost0
+      obtain ⟨m2, ys2, c2, ro2, pre2, hr2, hks2, hi2, ha2, _, _, hnone2, _, _⟩ :=
+        drainFilterLoop_spec hR p m.main.ents.length (o.calls.drop (fuse + 1)) (fuse + 1) m1
+          (o.empt - (ys1.filter (fun e => (m.main.find? e.k).isSome)).length) none [] {} hi1 hndpost hplpost
+      have hro2 : ro2 = [] := hnone2 rfl
+      rw [hro2, List.append_nil] at hks2
+      rw [hr2]
+      simp only [OkOr]
+      refine ⟨hi2, by simp [hlt], (by triv), fun k => ?_⟩
+      rw [ha2, ha1, ← hks1, ← hks2]
+      have hget : o.calls[fuse]? = some (o.calls[fuse]'hlt) := List.getElem?_eq_getElem hlt
+      -- where `k` sits relative to the call list
+      have hmid : o.calls.drop fuse = o.calls[fuse]'hlt :: o.calls.drop (fuse + 1) := (List.drop_eq_getElem_cons hlt)
+      have hkj_pre : o.calls[fuse]'hlt ∉ o.calls.take fuse := by
+        intro hin
+        have hnd' := hnd
+        rw [hsplit] at hnd'
+        exact (List.nodup_append.1 hnd').2.2 _ hin _ (by rw [hmid]; exact List.mem_cons_self) rfl
+      have hkj_post : o.calls[fuse]'hlt ∉ o.calls.drop (fuse + 1) := by
+        intro hin
+        have hnd' : (o.calls.drop fuse).Nodup := List.Nodup.sublist (List.drop_sublist _ _) hnd
+        rw [hmid, List.nodup_cons] at hnd'
+        exact hnd'.1 hin
+      unfold specDrain
+      by_cases hkj : k = o.calls[fuse]'hlt
+      · subst hkj
+        simp [hget, hkj_pre, hkj_post]
+      · have hne : ¬ (o.calls[fuse]? = some k) := by
+          rw [hget]; intro hc; injection hc with hc; exact hkj hc.symm
+        simp only [hne, if_false]
+        by_cases hpost : k ∈ o.calls.drop (fuse + 1)
+        · have hnpre : k ∉ o.calls.take fuse := fun hin => hdisj k hin hpost
+          simp [hpost, hnpre]
+        · simp only [hpost, if_false]
+          by_cases hpre : k ∈ o.calls.take fuse
+          · simp [hpre]
+          · simp only [hpre, if_false]
+            -- not visited at all, and not the panicking key: `k` is not in the map
+            have hnin : k ∉ o.calls := by
+              intro hin
+              rw [hsplit, List.mem_append, hmid, List.mem_cons] at hin
+              rcases hin with h1 | h2 | h3
+              · exact hpre h1
+              · exact hkj h2
+              · exact hpost h3
+            have : absOf m k = none := (absOf_none_iff m k).2 (fun hin => hnin ((hcov k).2 hin))
+            rw [this]; split <;> rfl
+    · -- the fuse is never reached: an ordinary drain_filter run to its end
+      have hge : o.calls.length ≤ fuse := Nat.le_of_not_lt hlt
+      have hdrop : o.calls.drop (fuse + 1) = [] := List.drop_eq_nil_of_le (by omega)
+      have htake : o.calls.take fuse = o.calls := List.take_of_length_le hge
+      rw [hdrop]
+      simp only [Map.drainFilterLoop, OkOr]
+      refine ⟨hi1, by simp [hlt], (by triv), fun k => ?_⟩
+      rw [ha1, ← hks1, htake]
+      have hget : o.calls[fuse]? = none := List.getElem?_eq_none hge
+      simp only [hget, reduceCtorEq, if_false]
+      unfold specDrain
+      by_cases hk : k ∈ o.calls
+      · simp [hk]
+      · simp only [hk, if_false]
+        have : absOf m k = none := (absOf_none_iff m k).2 (fun hin => hk ((hcov k).2 hin))
+        rw [this]; split <;> rfl
+
 end Griddle.C07
